@@ -442,8 +442,10 @@ class Gen:
             text = 's = """a\nb\n  c"""'
         elif k < 0.62:
             text = 'x = 1 + \\\n%s2' % (' ' * r.choice([0, 1, ind + 4]))
-        elif k < 0.68:
+        elif k < 0.65:
             text = 'a, b = 1, 2; c = 3'
+        elif k < 0.68:
+            text = 'lam%d = lambda: 0 ; after = [lambda: 1 , 2]' % r.randint(0, 3)
         elif k < 0.74 and scope_kind != 'cls':
             text = 'self_%d = [n for n in (1, 2)]; n2 = (k for k in (1,))' % r.randint(0, 3)
         elif k < 0.8 and in_func:
@@ -503,7 +505,7 @@ class Gen:
 
     def definition(self, ind, depth, scope_kind, path):
         r = self.rng
-        kind = 'cls' if r.random() < 0.45 else 'func'
+        kind = 'cls' if r.random() < (0.6 if scope_kind == 'cls' else 0.4) else 'func'
         is_async = kind == 'func' and r.random() < 0.3
         name = self.fresh('C' if kind == 'cls' else 'f') if r.random() < 0.8 else r.choice(['m', 'n', 'K'] if kind == 'func' else ['K', 'L'])
         if name in path.get('used', set()):
@@ -537,7 +539,7 @@ class Gen:
         for _ in range(n):
             self.noise(ind)
             k = r.random()
-            if k < 0.42 and depth < 4:
+            if k < (0.55 if scope_kind == 'cls' else 0.42) and depth < 5:
                 self.definition(ind, depth, scope_kind, path)
             elif k < 0.55 and depth < 4:
                 # compound statement: indentation without a scope
@@ -613,6 +615,7 @@ def _probe_task(task):
     if task.get('want_names'):
         skip = task['import_lines']
         try:
+            out['toplevel'] = [[n.line, n.column] for n in s.get_names(all_scopes=False, definitions=True, references=False)]
             names = s.get_names(all_scopes=True, definitions=True, references=False)
         except Exception as e:
             out['err'] = common.exc_sig(e)
@@ -807,7 +810,8 @@ def leaf_cover(ex):
 
 
 def _src(fc):
-    return fc.src if len(fc.src) < 8000 else None
+    # generated programs are always written out; corpus files are re-read from /repo on replay
+    return None if fc.label.startswith('corpus:') else fc.src
 
 
 def evaluate(ctx, cases, stream_tag):
@@ -925,6 +929,25 @@ def evaluate(ctx, cases, stream_tag):
                 budget['corr'] -= 1
                 ctx.violation('obligation', dict(what='correspondence full_name of the get_context result', **data,
                                                  impl_full=ob[4], model_full=model_ctx_full.get(impl)), nofail=True)
+        # ---- get_names(all_scopes=False) = the definitions whose scope is the module
+        # (parser_utils.get_parent_scope with its header rule); generated programs only
+        if fc.objs is not None and fc.obs.get('toplevel') is not None:
+            skip = ex['imports']
+            got = sorted(tuple(x) for x in fc.obs['toplevel'] if not any(a <= x[0] <= b for a, b in skip))
+            want = []
+            for n in fc.obs['names']:
+                npos = (n['line'], n['column'])
+                inner = innermost_any(ex, npos)
+                if inner is None or (inner.parent is None and inner.kind in ('func', 'cls') and npos < inner.colon
+                                     and npos not in ex['args']):
+                    want.append(npos)
+            want.sort()
+            ctx.count('toplevel', (key, 'toplevel'), nontrivial=len(want) > 0)
+            if got != want:
+                diff = sorted(set(got) ^ set(want))
+                ctx.deviation(dict(stream='oracle', cls='module-level-names'),
+                              dict(file=fc.label, source=_src(fc), path=fc.path, root=fc.root, differing=diff[:10]),
+                              'get_names(all_scopes=False) is not the set of definitions whose scope is the module: differs at %s' % diff[:5])
         # ---- parent chains
         names = {(n['line'], n['column']): n for n in fc.obs['names']}
         budget = dict(corr=3, dev=4)
